@@ -20,7 +20,7 @@ fn decl_ident<'a>(c: &mut Cur<'a>, what: &str) -> PResult<&'a Tok> {
     let t = c.ident()?;
     if !t.escaped && is_keyword(&t.text) {
         c.i -= 1;
-        return c.err(format!("bare keyword used as {what}"));
+        return Err(GrammarError { construct: format!("bare-keyword:{}", what.replace(' ', "-")), msg: format!("Swift keyword `{}` used as {what} without back-ticks", t.text), line: t.line });
     }
     Ok(t)
 }
@@ -44,7 +44,7 @@ pub fn type_expr(c: &mut Cur) -> PResult<OTy> {
         let first = c.ident()?;
         if !first.escaped && is_keyword(&first.text) && first.text != "Any" && first.text != "Self" {
             c.i -= 1;
-            return c.err("bare keyword used as a type name");
+            return Err(GrammarError { construct: "bare-keyword:type-reference".into(), msg: format!("Swift keyword `{}` used as a type name without back-ticks", first.text), line: first.line });
         }
         let mut base = first.text.clone();
         while c.is_p(".") {
@@ -128,7 +128,7 @@ fn inheritance(c: &mut Cur) -> PResult<Vec<String>> {
 }
 
 /// `enum CodingKeys: String, CodingKey, Codable { case a = "k", b, c }` -> [(case, raw value, explicit)]
-fn coding_keys_body(c: &mut Cur) -> PResult<Vec<(String, String, bool)>> {
+fn coding_keys_body(c: &mut Cur, what: &str) -> PResult<Vec<(String, String, bool)>> {
     c.expect_p("{")?;
     let mut out = vec![];
     while !c.is_p("}") {
@@ -137,7 +137,7 @@ fn coding_keys_body(c: &mut Cur) -> PResult<Vec<(String, String, bool)>> {
         }
         c.expect_id("case")?;
         loop {
-            let id = decl_ident(c, "a CodingKeys case")?;
+            let id = decl_ident(c, what)?;
             if c.eat_p("=") {
                 let v = c.string()?;
                 out.push((id.text.clone(), v.text.clone(), true));
@@ -176,7 +176,7 @@ fn switch_arms<'a>(body: &'a [Tok]) -> Vec<(&'a [Tok], &'a [Tok])> {
                 }
                 break;
             }
-        } else if depth == 1 && (t.is_id("case") || t.is_id("default")) {
+        } else if depth == 1 && (t.is_id("case") || t.is_id("default")) && !(i > 0 && body[i - 1].is_p(".")) && !t.escaped {
             if let Some((ls, le)) = cur_label {
                 arms.push((&body[ls..le], &body[arm_start..i]));
             }
@@ -237,7 +237,7 @@ pub fn parse(toks: &[Tok]) -> PResult<OFile> {
         c.eat_id("public");
         if c.eat_id("typealias") {
             c.ctx = "typealias";
-            let name = decl_ident(&mut c, "a type name")?;
+            let name = decl_ident(&mut c, "type name")?;
             let mut d = ODecl::new(OKind::Alias, &name.text, name.line);
             d.escaped = name.escaped;
             d.generics = generics_decl(&mut c)?.0;
@@ -246,7 +246,7 @@ pub fn parse(toks: &[Tok]) -> PResult<OFile> {
             f.decls.push(d);
         } else if c.eat_id("struct") {
             c.ctx = "struct";
-            let name = decl_ident(&mut c, "a type name")?;
+            let name = decl_ident(&mut c, "type name")?;
             let mut d = ODecl::new(OKind::Struct, &name.text, name.line);
             d.escaped = name.escaped;
             let (g, cons) = generics_decl(&mut c)?;
@@ -269,7 +269,7 @@ pub fn parse(toks: &[Tok]) -> PResult<OFile> {
                     c.next();
                 }
                 if c.eat_id("let") || c.eat_id("var") {
-                    let id = decl_ident(&mut c, "a property name")?;
+                    let id = decl_ident(&mut c, "property name")?;
                     let mut fl = OField::default();
                     fl.ident = id.text.clone();
                     fl.escaped = id.escaped;
@@ -288,7 +288,7 @@ pub fn parse(toks: &[Tok]) -> PResult<OFile> {
                     c.next();
                     c.next();
                     let _ = inheritance(&mut c)?;
-                    keys = Some(coding_keys_body(&mut c)?);
+                    keys = Some(coding_keys_body(&mut c, "CodingKeys case")?);
                 } else if c.eat_id("init") {
                     c.expect_p("(")?;
                     let mut ps = vec![];
@@ -350,7 +350,7 @@ pub fn parse(toks: &[Tok]) -> PResult<OFile> {
             c.ctx = "enum";
             let indirect = c.eat_id("indirect");
             c.expect_id("enum")?;
-            let name = decl_ident(&mut c, "a type name")?;
+            let name = decl_ident(&mut c, "type name")?;
             let mut d = ODecl::new(OKind::UnitEnum, &name.text, name.line);
             d.escaped = name.escaped;
             if indirect {
@@ -378,7 +378,7 @@ pub fn parse(toks: &[Tok]) -> PResult<OFile> {
                     c.next();
                 }
                 if c.eat_id("case") {
-                    let id = decl_ident(&mut c, "a case name")?;
+                    let id = decl_ident(&mut c, "case name")?;
                     let mut case = OCase::new(&id.text, id.line);
                     case.escaped = id.escaped;
                     if c.is_p("(") && !c.peek().map(|t| t.nl_before).unwrap_or(false) {
@@ -396,12 +396,12 @@ pub fn parse(toks: &[Tok]) -> PResult<OFile> {
                     c.next();
                     c.next();
                     let _ = inheritance(&mut c)?;
-                    keys = Some(coding_keys_body(&mut c)?);
+                    keys = Some(coding_keys_body(&mut c, "CodingKeys case")?);
                 } else if c.is_id("enum") && c.is_id_at(1, "ContainerCodingKeys") {
                     c.next();
                     c.next();
                     let _ = inheritance(&mut c)?;
-                    let k = coding_keys_body(&mut c)?;
+                    let k = coding_keys_body(&mut c, "ContainerCodingKeys case")?;
                     container = Some(k.into_iter().map(|(_, v, _)| v).collect());
                 } else if c.eat_id("init") {
                     c.skip_group()?; // (from decoder: Decoder)
